@@ -6,12 +6,13 @@
 #include "tree.h"
 
 enum { SH_DEFAULT, SH_DOTSUFFIX, SH_NOSUFFIX_NULL, SH_NOSUFFIX_EMPTY, SH_NOPROJECT, SH_PD2, SH_PD3, SH_PD4,
-       SH_CONFIGDIRS, SH_SETCONFDIRS, SH_DROPIN_ONLY_NULL, SH_DROPIN_ONLY_EMPTY, SH_REFUSE, SH_NOROOT, SH_ALTNAMES, SH_BOTH_LISTS, SH_HOLLOW, SH_N };
+       SH_CONFIGDIRS, SH_SETCONFDIRS, SH_DROPIN_ONLY_NULL, SH_DROPIN_ONLY_EMPTY, SH_REFUSE, SH_NOROOT, SH_ALTNAMES, SH_BOTH_LISTS, SH_HOLLOW, SH_REL_DEVNULL, SH_N };
 static const char *SHN[SH_N] = { "default", "dot-suffix", "suffix-NULL", "suffix-empty", "project-NULL", "PARSING_DIRS-2", "PARSING_DIRS-3",
-  "PARSING_DIRS-4", "CONFIG_DIRS", "econf_set_conf_dirs", "dropins-only(name NULL)", "dropins-only(name \"\")", "refuse-NULL-NULL", "no-ROOT_PREFIX", "default/dot-file-names", "CONFIG_DIRS + econf_set_conf_dirs (object list wins)", "default, 10-a.conf of /etc is a file without keys" };
+  "PARSING_DIRS-4", "CONFIG_DIRS", "econf_set_conf_dirs", "dropins-only(name NULL)", "dropins-only(name \"\")", "refuse-NULL-NULL", "no-ROOT_PREFIX", "default/dot-file-names", "CONFIG_DIRS + econf_set_conf_dirs (object list wins)", "default, 10-a.conf of /etc is a file without keys",
+  "PARSING_DIRS-3 with directories relative to the current directory, 10-a.conf of the last layer is a link to /dev/null" };
 /* second name universe for the default shape: a dot file, dictionary-vs-byte order, the bare suffix, a name that only contains the suffix */
-static const char *UNI2[T_MAXU] = { ".h.conf", "README", "x.conf.bak", "a.conf", ".conf", "B.conf", ".conf.h" };   /* x.conf.bak: the suffix occurs, but not at the end */
-static const char *UNI[T_MAXU] = { "10-a.conf", "9-b.conf", "B.conf", "a.conf", "README", ".h.conf", ".conf", "x.conf.bak" };
+static const char *UNI2[T_MAXU] = { ".h.conf", "READMEconf", "x.conf.bak", "a.conf", ".conf", "B.conf", ".conf.h" };   /* x.conf.bak: the suffix occurs, but not at the end */
+static const char *UNI[T_MAXU] = { "10-a.conf", "9-b.conf", "B.conf", "a.conf", "READMEconf", ".h.conf", ".conf", "x.conf.bak" };   /* READMEconf: ends in the letters of the suffix, not in ".conf" - never a drop-in of suffix conf/.conf */
 
 static int u_big = 5, u_small = 2;
 static char root[300];
@@ -58,6 +59,15 @@ static void setup_shape(int sh)
     }
     a_project = "ignored"; a_usr = "/ignored";
     break; }
+  case SH_REL_DEVNULL: {
+    ts.nlayers = 3;
+    size_t o = (size_t)snprintf(options, sizeof options, "PARSING_DIRS=");
+    for (int l = 0; l < ts.nlayers; l++) {
+      snprintf(ts.layer_dir[l], sizeof ts.layer_dir[l], "%s/layer%d", root, l);
+      o += (size_t)snprintf(options + o, sizeof options - o, "%slayer%d", l ? ":" : "", l);
+    }
+    a_project = "ignored"; a_usr = "/ignored";
+    break; }
   case SH_CONFIGDIRS:
     snprintf(options, sizeof options, "ROOT_PREFIX=%s;CONFIG_DIRS=.d:.conf.d", root);
     ts.ncd = 2; snprintf(ts.cd[0], sizeof ts.cd[0], ".d"); snprintf(ts.cd[1], sizeof ts.cd[1], ".conf.d");
@@ -91,9 +101,11 @@ static void setup_shape(int sh)
     break;
   }
   for (int l = 0; l < ts.nlayers; l++) snprintf(ts.layer_arg[l], sizeof ts.layer_arg[l], "%s", ts.layer_dir[l]);
-  t_opt_hollow = sh == SH_HOLLOW;
+  t_opt_hollow = sh == SH_HOLLOW ? 1 : sh == SH_REL_DEVNULL ? 2 : 0;
   t_build_contents();
   t_setup_dirs();
+  t_rel_base = NULL;
+  if (sh == SH_REL_DEVNULL) { if (chdir(root) != 0) mc_die("chdir %s", root); t_rel_base = root; }
   if (sh == SH_BOTH_LISTS || sh == SH_DROPIN_ONLY_NULL) {
     /* decoy drop-in directory named by the process-wide list only */
     for (int l = 0; l < ts.nlayers; l++) {
